@@ -6,7 +6,7 @@
       inst = (program is_drum (name code points) (note...) (bend...) (cc...))
       note = (start end pitch velocity)       bend = (time pitch)        cc = (time number value)
     op 1: convert (the tree with notes/C16-fix-1.diff), op 2: convert_legacy (unrepaired code)
-    output = (pm_rangeb pm_timeb pm_invb result (can_mce can_value can_unicode))
+    output = (pm_rangeb pm_timeb pm_invb result (can_mce can_value can_unicode) pm_ctorb)
       result = (0 (seq infos parser encoding) wfb)  |  (-1000 code)
       code: 1 MIDIConversionError, 2 ValueError, 3 UnicodeEncodeError *)
 From Coq Require Import ZArith List Bool.
@@ -43,8 +43,8 @@ Definition run (s : sx) : sx :=
   let m := xPm (xnth 1 s) in
   match xZ (xnth 0 s) with
   | 1 => L [oB (pm_rangeb m); oB (pm_timeb m); oB (pm_invb m); oResult (convert m);
-            L [oB (can_mce m); oB (can_value m); oB (can_unicode m)]]
+            L [oB (can_mce m); oB (can_value m); oB (can_unicode m)]; oB (pm_ctorb m)]
   | 2 => L [oB (pm_rangeb m); oB (pm_timeb m); oB (pm_invb m); oResult (convert_legacy m);
-            L [oB (can_mce m); oB (can_value m); oB (can_unicode m)]]
+            L [oB (can_mce m); oB (can_value m); oB (can_unicode m)]; oB (pm_ctorb m)]
   | _ => oErr 99
   end.
